@@ -1,5 +1,6 @@
 """C02 — decided on the sequential tower model (see tools/tower_common.py, DESIGN.md section 5)."""
 import tower_common
+from props import c10
 
 TARGETS = ["theories/Properties/C02.v", "theories/Properties/C02_sends.v"]
 MON = {"C02"}
@@ -7,7 +8,10 @@ KNOWN = {}
 
 
 def run(ctx):
-    return tower_common.check(ctx, "C02", TARGETS, MON, KNOWN)
+    def extra(ctx):
+        # requests served while a block is being processed: the controlled-schedule exploration on the real tower
+        c10.conc_probe(ctx, "C02", set())
+    return tower_common.check(ctx, "C02", TARGETS, MON, KNOWN, extra_run=extra)
 
 
 def replay(ctx, path):
